@@ -2634,8 +2634,7 @@ def groupby_reduce(
         if finalize_kwargs is None or "q" not in finalize_kwargs:
             raise ValueError("Please pass `q` for quantile calculations.")
         else:
-            nq = len(_atleast_1d(finalize_kwargs["q"]))
-            if nq > 1 and engine == "numpy":
+            if np.ndim(finalize_kwargs["q"]) > 0 and engine == "numpy":
                 raise ValueError(
                     "Multiple quantiles not supported with engine='numpy'."
                     "Use engine='flox' instead (it is also much faster), "
